@@ -23,7 +23,7 @@ NoFile == [nofile |-> TRUE]
 None == [none |-> TRUE]
 
 Reserved == {"name", "version", "target", "type"}
-IsPType(n) == \E i \in 0..99 : n = "p" \o ToString(i)
+IsPType(n) == \E i \in 0..999 : n = "p" \o ToString(i)
 
 \* ------------------------------------------------------------------ arguments
 \* _get_arguments: positional values, then keyword values (expression, literal or list), in order.
